@@ -1,4 +1,499 @@
-//! C16 — not built yet.
+//! C16 — comparison operations equal integer comparison.
+//! Correspondence of Model/Cmp.v with ops/comparisons.rs, ops/min_max.rs, ops/multiplexer.rs:
+//! a graph with BIT-array inputs and one custom operation is instantiated by /repo's
+//! `run_instantiation_pass` and evaluated by /repo's evaluator; the output bits are compared with
+//! the Gallina model on the same operand pairs (cases) and with native u128/i128 comparison
+//! (oracle).  Broadcasting is expanded to operand pairs here, independently of /repo.
+use crate::coqfmt::*;
 use crate::out::Out;
-pub const HEADER: &str = "From CC Require Import Base.Prelude.";
-pub fn run(_tier: &str, _seed: u64, _out: &mut Out) {}
+use crate::rng::Rng;
+use ciphercore_base::custom_ops::{run_instantiation_pass, CustomOperation};
+use ciphercore_base::data_types::{array_type, BIT};
+use ciphercore_base::data_values::Value;
+use ciphercore_base::errors::Result;
+use ciphercore_base::evaluators::random_evaluate;
+use ciphercore_base::graphs::create_context;
+use ciphercore_base::ops::comparisons::{
+    Equal, GreaterThan, GreaterThanEqualTo, LessThan, LessThanEqualTo, NotEqual,
+};
+use ciphercore_base::ops::min_max::{Max, Min};
+use serde_json::json;
+
+pub const HEADER: &str = "From CC Require Import Base.Prelude Model.Cmp.";
+
+const OP_NAMES: [&str; 8] = [
+    "Equal", "NotEqual", "LessThan", "GreaterThan", "LessThanEqualTo", "GreaterThanEqualTo", "Min", "Max",
+];
+
+fn custom_op(op: usize, signed_comparison: bool) -> CustomOperation {
+    match op {
+        0 => CustomOperation::new(Equal {}),
+        1 => CustomOperation::new(NotEqual {}),
+        2 => CustomOperation::new(LessThan { signed_comparison }),
+        3 => CustomOperation::new(GreaterThan { signed_comparison }),
+        4 => CustomOperation::new(LessThanEqualTo { signed_comparison }),
+        5 => CustomOperation::new(GreaterThanEqualTo { signed_comparison }),
+        6 => CustomOperation::new(Min { signed_comparison }),
+        _ => CustomOperation::new(Max { signed_comparison }),
+    }
+}
+
+fn mask(w: u32) -> u128 {
+    if w >= 128 {
+        u128::MAX
+    } else {
+        (1u128 << w) - 1
+    }
+}
+
+/// two's-complement reading of the low `w` bits of x (w <= 128)
+fn as_signed(x: u128, w: u32) -> i128 {
+    if w == 0 {
+        0
+    } else {
+        // move bit w-1 to the sign position, then shift back arithmetically
+        ((x << (128 - w)) as i128) >> (128 - w)
+    }
+}
+
+/// LSB-first bits of the operands, row-major: the BIT array of shape [.., w]
+fn to_bits(xs: &[u128], w: u32) -> Vec<u8> {
+    let mut v = Vec::with_capacity(xs.len() * w as usize);
+    for x in xs {
+        for i in 0..w {
+            v.push(((x >> i) & 1) as u8);
+        }
+    }
+    v
+}
+
+/// /repo: build the graph with one custom op on BIT arrays of shapes sa ++ [wa], sb ++ [wb],
+/// instantiate, evaluate; returns the flattened output bits.
+fn run_repo(op: usize, sg: bool, sa: &[u64], wa: u32, xa: &[u128], sb: &[u64], wb: u32, xb: &[u128]) -> Result<Vec<u64>> {
+    let c = create_context()?;
+    let g = c.create_graph()?;
+    let mut sha = sa.to_vec();
+    sha.push(wa as u64);
+    let mut shb = sb.to_vec();
+    shb.push(wb as u64);
+    let ia = g.input(array_type(sha, BIT))?;
+    let ib = g.input(array_type(shb, BIT))?;
+    let o = g.custom_op(custom_op(op, sg), vec![ia, ib])?;
+    let ot = o.get_type()?;
+    g.set_output_node(o)?;
+    g.finalize()?;
+    c.set_main_graph(g.clone())?;
+    c.finalize()?;
+    let mapped = run_instantiation_pass(c)?;
+    let va = Value::from_flattened_array(&to_bits(xa, wa), BIT)?;
+    let vb = Value::from_flattened_array(&to_bits(xb, wb), BIT)?;
+    let r = random_evaluate(mapped.get_context().get_main_graph()?, vec![va, vb])?;
+    if ot.is_scalar() {
+        Ok(vec![r.to_u8(BIT)? as u64])
+    } else {
+        r.to_flattened_array_u64(ot)
+    }
+}
+
+/// NumPy broadcasting of the prefix shapes, written independently of /repo: output shape and,
+/// for every output position (row-major), the positions of the two operands.
+fn broadcast(sa: &[u64], sb: &[u64]) -> Option<(Vec<u64>, Vec<(usize, usize)>)> {
+    let n = sa.len().max(sb.len());
+    let pad = |s: &[u64]| -> Vec<u64> {
+        let mut v = vec![1u64; n - s.len()];
+        v.extend_from_slice(s);
+        v
+    };
+    let (pa, pb) = (pad(sa), pad(sb));
+    let mut out = vec![];
+    for i in 0..n {
+        if pa[i] == pb[i] || pb[i] == 1 {
+            out.push(pa[i]);
+        } else if pa[i] == 1 {
+            out.push(pb[i]);
+        } else {
+            return None;
+        }
+    }
+    let total: u64 = out.iter().product();
+    let mut pos = vec![];
+    for k in 0..total {
+        let mut rem = k;
+        let mut idx = vec![0u64; n];
+        for i in (0..n).rev() {
+            idx[i] = rem % out[i];
+            rem /= out[i];
+        }
+        let flat = |p: &[u64]| -> usize {
+            let mut f = 0u64;
+            for i in 0..n {
+                f = f * p[i] + if p[i] == 1 { 0 } else { idx[i] };
+            }
+            f as usize
+        };
+        pos.push((flat(&pa), flat(&pb)));
+    }
+    Some((out, pos))
+}
+
+/// the property itself, natively: expected output of op on one operand pair
+fn native_cmp(op: usize, sg: bool, w: u32, a: u128, b: u128) -> bool {
+    let o = if sg { as_signed(a, w).cmp(&as_signed(b, w)) } else { a.cmp(&b) };
+    use std::cmp::Ordering::*;
+    match op {
+        0 => o == Equal,
+        1 => o != Equal,
+        2 => o == Less,
+        3 => o == Greater,
+        4 => o != Greater,
+        _ => o != Less,
+    }
+}
+fn native_minmax(op: usize, sg: bool, w: u32, a: u128, b: u128) -> u128 {
+    let a_le_b = if sg { as_signed(a, w) <= as_signed(b, w) } else { a <= b };
+    if (op == 6) == a_le_b {
+        a
+    } else {
+        b
+    }
+}
+
+/// interesting values of width w
+fn boundary(w: u32, rng: &mut Rng) -> u128 {
+    let m = mask(w);
+    let half = if w == 0 { 0 } else { 1u128 << (w - 1) };
+    let v = match rng.below(12) {
+        0 => 0,
+        1 => 1,
+        2 => m,
+        3 => m.wrapping_sub(1),
+        4 => half,
+        5 => half.wrapping_sub(1),
+        6 => half.wrapping_add(1),
+        7 => 0x5555_5555_5555_5555_5555_5555_5555_5555,
+        8 => 0xAAAA_AAAA_AAAA_AAAA_AAAA_AAAA_AAAA_AAAA,
+        9 => rng.u128() >> rng.below(128),
+        _ => rng.u128(),
+    };
+    v & m
+}
+
+/// operand pairs for one width: equal operands, adjacent values, sign boundaries, operands that
+/// differ in exactly one position (every reduction-tree leaf can decide), random
+fn gen_pairs(w: u32, n: usize, rng: &mut Rng) -> Vec<(u128, u128)> {
+    let m = mask(w);
+    let mut v: Vec<(u128, u128)> = vec![];
+    let half = 1u128 << (w - 1);
+    let fixed = [
+        (0, 0), (m, m), (0, m), (m, 0), (half, half.wrapping_sub(1) & m), (half.wrapping_sub(1) & m, half),
+        (half, 0), (0, half), (m, half), (half, m), (half.wrapping_add(1) & m, half), (1 & m, 0),
+    ];
+    v.extend_from_slice(&fixed);
+    while v.len() < n {
+        let x = boundary(w, rng);
+        let p = match rng.below(8) {
+            0 => (x, x),
+            1 => (x, x.wrapping_add(1) & m),
+            2 => (x.wrapping_add(1) & m, x),
+            3 | 4 => {
+                // differ in exactly one position
+                let i = match rng.below(4) {
+                    0 => 0,
+                    1 => w - 1,
+                    _ => rng.below(w as u64) as u32,
+                };
+                if rng.chance(1, 2) { (x, x ^ (1u128 << i)) } else { (x ^ (1u128 << i), x) }
+            }
+            5 => {
+                // differ in two positions with opposite directions
+                let i = rng.below(w as u64) as u32;
+                let j = rng.below(w as u64) as u32;
+                ((x | (1u128 << i)) & !(1u128 << j), (x | (1u128 << j)) & !(1u128 << i))
+            }
+            6 => (x, !x & m),
+            _ => (x, boundary(w, rng)),
+        };
+        v.push((p.0 & m, p.1 & m));
+    }
+    v
+}
+
+fn pairs_coq(ps: &[(u128, u128)]) -> String {
+    list(ps, |p| format!("({}, {})", p.0, p.1))
+}
+
+struct Job<'a> {
+    sg: bool,
+    w: u32,
+    sa: &'a [u64],
+    sb: &'a [u64],
+    xa: Vec<u128>,
+    xb: Vec<u128>,
+    class: &'a str,
+}
+
+fn pack(bits: &[u64]) -> u128 {
+    bits.iter().enumerate().fold(0u128, |acc, (i, b)| acc | ((*b as u128 & 1) << i))
+}
+fn bool_coq(b: &u64) -> String {
+    if *b == 1 { "true".to_string() } else { "false".to_string() }
+}
+
+/// One job = the eight custom operations (six comparisons, Min, Max) in mode `sg` on the same
+/// operand arrays: eight graphs built, instantiated and evaluated by /repo.  The oracle is checked
+/// on every output element; one correspondence case is emitted unless oracle-only.
+fn do_job(j: Job, emit_case: bool, out: &mut Out) {
+    let Job { sg, w, sa, sb, xa, xb, class } = j;
+    let (oshape, pos) = broadcast(sa, sb).expect("harness generates broadcastable shapes");
+    let pairs: Vec<(u128, u128)> = pos.iter().map(|&(i, k)| (xa[i], xb[k])).collect();
+    let input = json!({"signed": sg, "width": w, "shape_a": sa, "shape_b": sb, "class": class,
+        "pairs": pairs.len(), "first_pairs": pairs.iter().take(4).map(|p| format!("{:#x},{:#x}", p.0, p.1)).collect::<Vec<_>>()});
+    out.stat(&format!("w:{}", w));
+    out.stat(&format!("signed:{}", sg));
+    out.stat(&format!("shapes:{:?}x{:?}", sa, sb));
+    out.stat(&format!("class:{}", class));
+    out.stat_n("operand_pairs", pairs.len() as u64);
+    let legit_err = sg && w < 2;
+    let mut cmp_rhs: Vec<String> = vec![];
+    let mut mm_rhs: Vec<String> = vec![];
+    for op in 0..8usize {
+        let (xa2, xb2, sa2, sb2) = (xa.clone(), xb.clone(), sa.to_vec(), sb.to_vec());
+        let r = observe(move || run_repo(op, sg, &sa2, w, &xa2, &sb2, w, &xb2));
+        out.stat(&format!("op:{}:{}", OP_NAMES[op], r.tag()));
+        out.stat("graphs_evaluated");
+        let elem_input = |k: usize, p: &(u128, u128)| json!({"op": OP_NAMES[op], "signed": sg, "width": w, "shape_a": sa, "shape_b": sb, "position": k, "a": format!("{:#x}", p.0), "b": format!("{:#x}", p.1)});
+        let mode = if sg { "-signed" } else { "" };
+        // Equal / NotEqual have no signed mode: a one-bit operand is fine for them
+        let legit = legit_err && op >= 2;
+        if op < 6 {
+            cmp_rhs.push(res(&r, |bits| list(bits, bool_coq)));
+            match &r {
+                Outcome::Ok(bits) => {
+                    if bits.len() != pairs.len() {
+                        out.violation("cmp-output-size", input.clone(), format!("{}: {} output bits for {} broadcast positions (shape {:?})", OP_NAMES[op], bits.len(), pairs.len(), oshape));
+                        continue;
+                    }
+                    let mut bad = false;
+                    for (k, p) in pairs.iter().enumerate() {
+                        let exp = native_cmp(op, sg && op >= 2, w, p.0, p.1);
+                        if bits[k] != exp as u64 {
+                            out.violation(&format!("cmp-wrong-{}{}", OP_NAMES[op], mode), elem_input(k, p), format!("observed {}, expected {}", bits[k], exp));
+                            bad = true;
+                            break;
+                        }
+                    }
+                    if legit {
+                        out.violation("reject-accepts", input.clone(), format!("{}: one-bit signed operands accepted", OP_NAMES[op]));
+                    } else if !bad {
+                        out.stat_n("oracle_checks", pairs.len() as u64);
+                    }
+                }
+                _ => {
+                    if legit && r == Outcome::Err {
+                        out.oracle_ok();
+                    } else {
+                        out.violation("cmp-fails", input.clone(), format!("{}: {} on valid operands", OP_NAMES[op], r.tag()));
+                    }
+                }
+            }
+        } else {
+            // Min / Max: output shape is broadcast ++ [w]
+            let vals: Outcome<Vec<(usize, u128)>> = match &r {
+                Outcome::Ok(bits) => {
+                    if bits.len() != pairs.len() * w as usize {
+                        out.violation("minmax-output-size", input.clone(), format!("{}: {} output bits for {} positions of width {}", OP_NAMES[op], bits.len(), pairs.len(), w));
+                    }
+                    Outcome::Ok(bits.chunks(w as usize).map(|c| (c.len(), pack(c))).collect())
+                }
+                Outcome::Err => Outcome::Err,
+                Outcome::Panic => Outcome::Panic,
+            };
+            mm_rhs.push(res(&vals, |v| list(v, |(n, x)| format!("({}%nat, {})", n, x))));
+            match &vals {
+                Outcome::Ok(v) => {
+                    let mut bad = v.len() != pairs.len();
+                    if !bad {
+                        for (k, p) in pairs.iter().enumerate() {
+                            let exp = native_minmax(op, sg, w, p.0, p.1);
+                            if v[k].1 != exp {
+                                out.violation(&format!("minmax-wrong-{}{}", OP_NAMES[op], mode), elem_input(k, p), format!("observed {:#x}, expected {:#x}", v[k].1, exp));
+                                bad = true;
+                                break;
+                            }
+                        }
+                    }
+                    if legit {
+                        out.violation("reject-accepts", input.clone(), format!("{}: one-bit signed operands accepted", OP_NAMES[op]));
+                    } else if !bad {
+                        out.stat_n("oracle_checks", pairs.len() as u64);
+                    }
+                }
+                _ => {
+                    if legit && r == Outcome::Err {
+                        out.oracle_ok();
+                    } else {
+                        out.violation("minmax-fails", input.clone(), format!("{}: {} on valid operands", OP_NAMES[op], r.tag()));
+                    }
+                }
+            }
+        }
+    }
+    if emit_case {
+        let nontrivial = pairs.iter().any(|p| p.0 != p.1);
+        out.case(
+            "ops",
+            format!("all_ops {} {} {}", if sg { "true" } else { "false" }, w, pairs_coq(&pairs)),
+            format!("([{}], [{}])", cmp_rhs.join("; "), mm_rhs.join("; ")),
+            input,
+            nontrivial,
+        );
+    }
+}
+
+/// malformed stream: operands the operations must reject (an error, never a panic)
+fn reject_case(sg: bool, wa: u32, wb: u32, a: u128, b: u128, out: &mut Out) {
+    let input = json!({"signed": sg, "width_a": wa, "width_b": wb, "a": format!("{:#x}", a), "b": format!("{:#x}", b)});
+    let mut cmp_rhs: Vec<String> = vec![];
+    let mut mm_rhs: Vec<String> = vec![];
+    for op in 0..8usize {
+        let r = observe(move || run_repo(op, sg, &[], wa, &[a], &[], wb, &[b]));
+        out.stat(&format!("reject:{}", r.tag()));
+        out.stat("graphs_evaluated");
+        if op < 6 {
+            cmp_rhs.push(res(&r, |bits| bool_coq(&bits[0])));
+        } else {
+            mm_rhs.push(res(&r, |bits| format!("({}%nat, {})", bits.len(), pack(bits))));
+        }
+        let must_reject = wa != wb || wa == 0 || (sg && op >= 2 && wa < 2);
+        match r {
+            Outcome::Panic => out.violation("reject-panics", input.clone(), format!("{}: panic instead of an error", OP_NAMES[op])),
+            Outcome::Ok(_) if must_reject => out.violation("reject-accepts", input.clone(), format!("{}: operands of unequal/invalid width accepted", OP_NAMES[op])),
+            Outcome::Err if !must_reject => out.violation("cmp-fails", input.clone(), format!("{}: valid operands rejected", OP_NAMES[op])),
+            _ => out.oracle_ok(),
+        }
+    }
+    out.case(
+        "reject",
+        format!("all_ops_on {} (bits_of {} {}) (bits_of {} {})", if sg { "true" } else { "false" }, wa, a, wb, b),
+        format!("([{}], [{}])", cmp_rhs.join("; "), mm_rhs.join("; ")),
+        input,
+        true,
+    );
+}
+
+const QUICK_WIDTHS: [u32; 25] = [
+    1, 2, 3, 4, 5, 6, 7, 8, 9, 10, 11, 12, 13, 15, 16, 17, 31, 32, 33, 63, 64, 65, 100, 127, 128,
+];
+
+/// pairs of prefix shapes (the bit dimension is appended): [k,w] vs [w], [k,1,w] vs [m,w], ...
+const BCAST: [(&[u64], &[u64]); 10] = [
+    (&[3], &[]),
+    (&[], &[4]),
+    (&[3, 1], &[2]),
+    (&[2], &[3, 1]),
+    (&[2, 3], &[1, 3]),
+    (&[2, 3], &[2, 3]),
+    (&[1], &[5]),
+    (&[2, 1, 3], &[2, 1]),
+    (&[1, 1], &[1]),
+    (&[4, 1], &[1, 3]),
+];
+
+pub fn run(tier: &str, seed: u64, out: &mut Out) {
+    let mut rng = Rng::new(seed ^ 0xC16);
+    let thorough = tier == "thorough";
+    let search = tier == "search";
+    let emit = !search;
+    let modes = [false, true];
+
+    // ---- 1. exhaustive operand pairs for small widths (all ops, both modes)
+    let wmax = if thorough || search { 5 } else { 4 };
+    for w in 1..=wmax {
+        let n = 1u128 << w;
+        let mut xa = vec![];
+        let mut xb = vec![];
+        for a in 0..n {
+            for b in 0..n {
+                xa.push(a);
+                xb.push(b);
+            }
+        }
+        let k = xa.len() as u64;
+        let col: Vec<u128> = (0..n).collect();
+        for &sg in modes.iter() {
+            do_job(Job { sg, w, sa: &[k], sb: &[k], xa: xa.clone(), xb: xb.clone(), class: "exhaustive" }, emit, out);
+            // the same space through broadcasting: [2^w,1,w] vs [2^w,w]
+            if thorough || w <= 3 {
+                do_job(Job { sg, w, sa: &[n as u64, 1], sb: &[n as u64], xa: col.clone(), xb: col.clone(), class: "exhaustive-broadcast" }, emit, out);
+            }
+        }
+    }
+
+    // ---- 2. every width (quick: a spread covering the parity paths), all ops, both modes
+    let widths: Vec<u32> = if thorough || search {
+        (1..=128).collect()
+    } else {
+        let mut v = QUICK_WIDTHS.to_vec();
+        for _ in 0..2 {
+            let w = 18 + rng.below(109) as u32;
+            if !v.contains(&w) {
+                v.push(w);
+            }
+        }
+        v
+    };
+    let npairs = if search { 160 } else if thorough { 48 } else { 28 };
+    for &w in widths.iter() {
+        for &sg in modes.iter() {
+            let ps = gen_pairs(w, npairs, &mut rng);
+            let k = ps.len() as u64;
+            let xa: Vec<u128> = ps.iter().map(|p| p.0).collect();
+            let xb: Vec<u128> = ps.iter().map(|p| p.1).collect();
+            do_job(Job { sg, w, sa: &[k], sb: &[k], xa, xb, class: "width-sweep" }, emit, out);
+        }
+        // one bit string against one bit string: rank-1 inputs, scalar comparison output
+        if thorough || search || rng.chance(1, 3) {
+            let sg = rng.chance(1, 2);
+            let ps = gen_pairs(w, 13 + rng.below(8) as usize, &mut rng);
+            let p = ps[ps.len() - 1];
+            do_job(Job { sg, w, sa: &[], sb: &[], xa: vec![p.0], xb: vec![p.1], class: "rank1" }, emit, out);
+        }
+    }
+
+    // ---- 3. broadcasting shapes
+    let bw: Vec<u32> = if thorough || search { vec![1, 2, 3, 5, 8, 13, 33, 64, 127] } else { vec![1, 3, 8, 33] };
+    for &(sa, sb) in BCAST.iter() {
+        for &w in bw.iter() {
+            for &sg in modes.iter() {
+                if !(thorough || search) && !rng.chance(1, 4) {
+                    continue;
+                }
+                let na: u64 = sa.iter().product();
+                let nb: u64 = sb.iter().product();
+                // few distinct values so that equal operands meet often
+                let pool: Vec<u128> = (0..3).map(|_| boundary(w, &mut rng)).collect();
+                let pick = |rng: &mut Rng| if rng.chance(1, 2) { *rng.pick(&pool) } else { boundary(w, rng) };
+                let xa: Vec<u128> = (0..na).map(|_| pick(&mut rng)).collect();
+                let xb: Vec<u128> = (0..nb).map(|_| pick(&mut rng)).collect();
+                do_job(Job { sg, w, sa, sb, xa, xb, class: "broadcast" }, emit, out);
+            }
+        }
+    }
+
+    // ---- 4. malformed stream: unequal widths, one-bit signed operands, empty bit dimension
+    if !search {
+        let rounds = if thorough { 12 } else { 3 };
+        for _ in 0..rounds {
+            for &sg in modes.iter() {
+                let wa = 1 + rng.below(9) as u32;
+                let wb = if rng.chance(1, 2) { wa + 1 } else { 1 + rng.below(9) as u32 };
+                reject_case(sg, wa, wb, boundary(wa, &mut rng), boundary(wb, &mut rng), out);
+            }
+        }
+        reject_case(true, 1, 1, 0, 1, out);
+        reject_case(true, 1, 1, 1, 1, out);
+        reject_case(false, 0, 0, 0, 0, out);
+        reject_case(true, 0, 0, 0, 0, out);
+        reject_case(false, 0, 3, 0, 5, out);
+    }
+}
